@@ -11,7 +11,8 @@ from props import common
 MODULE = "Rspirv.Props.C18"
 P = "Rspirv.Props.C18."
 THEOREMS = [P + n for n in ("liftFields_names", "liftField_plain", "liftFields_req", "walk_sound", "table_ok", "C18_table",
-                            "C18_header")]
+                            "C18_header", "liftWith_wrongOpcode", "liftConstant_wrongOpcode", "liftGlobals_counts",
+                            "liftBlockInsts_counts", "liftBlocks_counts", "liftFunctions_counts", "C18_structure")]
 NEEDS = ("header", "core", "glsl", "opencl", "traversals", "decode", "operand_enum", "asm_arms", "parse_operand", "operands",
          "operand_reflect", "disas_operand", "lift")
 ATOM = re.compile(r"[tmj]\d+|s[0-9a-f]*|\d+|NaN")
